@@ -46,6 +46,9 @@ func apiFuncs(w *World, shorts []string) []*ssa.Function {
 						if f == nil || f.Blocks == nil || f.Synthetic != "" {
 							continue
 						}
+						if !ms.At(i).Obj().Exported() {
+							continue // an unexported method is not API: it is judged through the exported functions that reach it
+						}
 						dup := false
 						for _, o := range out {
 							if o == f {
